@@ -24,6 +24,10 @@ def configure_small(sess):
     configure(sess, "small")
 
 
+def configure_small2(sess):
+    configure(sess, "small2")
+
+
 class H:
     """attribute view of a heap dict"""
 
@@ -67,7 +71,7 @@ def static_ok(M):
 
 def _all_zero(a, d):
     if a.small:
-        return d == 0
+        return d == 0   # (small2: cut-off 1, tiers 0, 0 is encoded as 0 as well)
     i = z3.Int("i!z")
     return z3.ForAll([i], z3.Implies(z3.And(0 <= i, i < a.dlen(d)), a.dtier(d, i) == 0))
 
@@ -200,6 +204,7 @@ def not_rt(M):
 class _Sched(Contract):
     configure = "configure"
     configure_small = "configure_small"
+    configure_small2 = "configure_small2"
     property_ids = ["C01", "C02", "C05"]
 
     def M(self, mk):
@@ -365,6 +370,10 @@ def use_schedule_step_small(sess):
     use_schedule_step(sess, "small")
 
 
+def use_schedule_step_small2(sess):
+    use_schedule_step(sess, "small2")
+
+
 class NotifyDependencies(_Sched):
     """notify_dependencies(sim), called right after sim.current_step = None: schedules
     output_time + delay for exactly the trigger edges whose port produced output; every
@@ -374,6 +383,7 @@ class NotifyDependencies(_Sched):
     property_ids = ["C01", "C02", "C05"]
     configure = "use_schedule_step"
     configure_small = "use_schedule_step_small"
+    configure_small2 = "use_schedule_step_small2"
     loop_modifies = {0: ["NS", "newer"], 1: ["NS", "newer"]}
 
     def make_args(self, mk):
